@@ -17,3 +17,5 @@ KFN int k_is_base10(const char* s, unsigned long n) { return is_base10(s, n); }
 // floating-point text assembly (the digit generation itself - grisu3 / snprintf - is outside reach, DESIGN 1): digits * 10^k -> JSON number text
 KFN unsigned long k_prettify(const char* digits, int length, int k, int min_exp, int max_exp, char* buf, unsigned long cap) { fsink s{buf, 0, cap}; prettify_string(digits, length, k, min_exp, max_exp, s); return s.n; }
 KFN unsigned long k_dump_buffer(const char* b, unsigned long length, char decimal_point, char* buf, unsigned long cap) { fsink s{buf, 0, cap}; dump_buffer(b, length, decimal_point, s); return s.n; }
+// write_double::operator() with an explicit precision: snprintf is a stub by contract in the harness (returns the would-be length, writes at most size-1 chars)
+KFN unsigned long k_write_double(unsigned fmt, int precision, double val, char* buf, unsigned long cap) { write_double w((float_chars_format)fmt, precision); fsink s{buf, 0, cap}; w(val, s); return s.n; }
